@@ -88,6 +88,8 @@ def restrip(patch, strip):
                 tail = rest[len(names[0]):]
             new = []
             for n in names:
+                if b"//" in n or b"/./" in n or n.startswith(b"./"):
+                    return None          # non-canonical spellings: left to the model comparison and the strip grid
                 comps = n.split(b"/")
                 if len(comps) <= strip:
                     return None
@@ -108,6 +110,20 @@ def run(ctx):
         w = l3gen.gen_workspace(rng, fail_prob=0.25)
         cases.append((w, l3common.rand_cfg(rng, threads=(1, 1, 2, 4))))
     cases = names_corpus() + cases
+    # strip levels vs path shapes on the parser alone: implementation = model on every combination
+    grid = []
+    for pre in (b"", b"a/", b"./", b"./a/", b"a/./", b".//a/", b"a//", b"a/b/", b"./a/b/"):
+        for tail in (b"f.c", b"dir/f.c", b"dir/sub/f.c", b"./f.c"):
+            for strip in (0, 1, 2, 3):
+                nm = pre + tail
+                grid.append("parse %d 0 %s" % (strip, (b"--- " + nm + b"\n+++ " + nm + b"\n@@ -1 +1 @@\n-a\n+b\n").hex()))
+    gi, gm = ctx.impl(grid), ctx.model(grid)
+    hist["strip grid"] += len(grid)
+    for line, a, b in zip(grid, gi, gm):
+        if a != b:
+            ctx.violation({"kind": "correspondence-mismatch", "correspondence": "strip level vs path shape: parse_patch vs model", "case": line[:200],
+                           "impl": a[:200], "model": b[:200]}, no_input=True)
+            break
     reals = l3common.compare(ctx, cases, "series options and name choice")
     bad = 0
     for (w, cfg), r in zip(cases, reals):
@@ -199,6 +215,11 @@ def names_corpus():
     for strip, pre in ((0, b""), (1, b"a/"), (2, b"a/b/"), (3, b"x/y/z/")):
         w = {"files": {b"dir/f.c": F(body)}, "dirs": [], "applied": None, "series": b"p.patch -p%d\n" % strip,
              "patches": {b"p.patch": b"--- " + pre + b"dir/f.c\n+++ " + pre + b"dir/f.c\n" + hunk}}
+        out.append((w, dict(base)))
+    # a leading "./" is a component for -pN (GNU patch strips up to the N-th slash) and is dropped afterwards
+    for strip, name in ((1, b"./dir/f.c"), (2, b"./a/dir/f.c"), (0, b"./dir/f.c"), (1, b"a/./dir/f.c"), (2, b".//a//dir/f.c")):
+        w = {"files": {b"dir/f.c": F(body), b"f.c": F(b"zzz\n")}, "dirs": [], "applied": None, "series": b"p.patch -p%d\n" % strip,
+             "patches": {b"p.patch": b"--- " + name + b"\n+++ " + name + b"\n" + hunk}}
         out.append((w, dict(base)))
     # /dev/null is never a target
     out.append(({"files": {}, "dirs": [], "applied": None, "series": b"p.patch -p0\n",
